@@ -133,7 +133,7 @@ def strategy(tier):
         if draw(st.integers(0, 5)) == 0:
             case = draw(gen.fork_case())
             n = len(case["graph"])
-            case["perm"] = {"nodes": list(draw(st.permutations(list(range(n))))),
+            case["perm"] = {"nodes": gen.shuffled(draw, range(n)),
                             "nbr_rot": [draw(st.integers(0, 3)) for _ in range(n)],
                             "nbr_rev": [draw(st.booleans()) for _ in range(n)]}
             case["unique"] = False
@@ -144,7 +144,7 @@ def strategy(tier):
                                       trace_kw={"kinds": ["exact", "exact", "outlier", "repeat"]} if tie else
                                       {"kinds": ["walk", "sparse", "outlier", "outlier", "random"]}))
         n = len(case["graph"])
-        case["perm"] = {"nodes": list(draw(st.permutations(list(range(n))))),
+        case["perm"] = {"nodes": gen.shuffled(draw, range(n)),
                         "nbr_rot": [draw(st.integers(0, 3)) for _ in range(n)],
                         "nbr_rev": [draw(st.booleans()) for _ in range(n)]}
         case["unique"] = draw(st.booleans())
